@@ -360,15 +360,15 @@ func (s *ctlSys) Enabled() []verifrt.Event {
 	}
 	if faultMenu {
 		for _, k := range s.svcQ.Keys() {
-			evs = append(evs, verifrt.Event{Kind: "svc", S: k, B: 1, User: true}) // first status write of this delivery fails
+			evs = append(evs, verifrt.Event{Kind: "svc", S: k, B: 1, Fault: true}) // first status write of this delivery fails
 		}
 	}
 	if crashMenu {
 		for _, k := range s.svcQ.Keys() {
-			evs = append(evs, verifrt.Event{Kind: "svc", S: k, A: 1, User: true}) // crash before the first write persists
-			evs = append(evs, verifrt.Event{Kind: "svc", S: k, A: 2, User: true}) // crash right after the first write persisted
+			evs = append(evs, verifrt.Event{Kind: "svc", S: k, A: 1, Fault: true}) // crash before the first write persists
+			evs = append(evs, verifrt.Event{Kind: "svc", S: k, A: 2, Fault: true}) // crash right after the first write persisted
 		}
-		evs = append(evs, verifrt.Event{Kind: "crash", User: true})
+		evs = append(evs, verifrt.Event{Kind: "crash", Fault: true})
 	}
 	if s.quiescent() || userEventsAllowedWhileSettling {
 		svcs := s.services()
@@ -435,7 +435,7 @@ func (s *ctlSys) Apply(ev verifrt.Event) {
 	s.handlerCalls = nil
 	s.allocEdges = nil
 	s.writes, s.failWrites, s.crashAtWrite = 0, 0, 0
-	if ev.User && ev.Kind != "svc" {
+	if (ev.User || ev.Kind == "crash") && ev.Kind != "svc" {
 		if s.quiescent() {
 			s.snapshotRef("quiescent")
 		}
